@@ -52,6 +52,8 @@ TokU == {<<97>>, <<98>>, <<10>>, <<13>>, <<11>>, <<133>>, <<8232>>, <<128512>>}
 DocU ==
   CASE Universe = "lists"   -> {List(s) : s \in SeqsUpTo(AtomU, MaxLen)}
     [] Universe = "lists3"  -> {List(s) : s \in SeqsUpTo({Int("1"), Flt("1.0"), Bool("true")}, MaxLen)}
+    \* zero, float zero and negative zero: equal for Python's ==, three different JSON texts
+    [] Universe = "zeros"   -> {List(s) : s \in SeqsUpTo({Int("0"), Flt("0.0"), Flt("-0.0")}, MaxLen)}
     [] Universe = "nested"  -> {List(s) : s \in SeqsUpTo(ItemU, MaxLen)}
     [] Universe = "objects" -> {Obj(m) : m \in ObjU(AtomU \cup {List(<<Int("1")>>), Obj([k \in {"a"} |-> Int("1")])})}
     [] Universe = "strings" -> {Str(FlatSeq(s)) : s \in SeqsUpTo(TokU, MaxLen)}
